@@ -69,7 +69,11 @@ func parseVia(r *common.Rng, text string, strictOK bool) (doc any, errMsg string
 	case x < 8:
 		via, src = "init :parse", "(make-instance 'bag-flavor :parse txt)"
 	case x < 9 || !strictOK:
-		via, src = "json-parse", "(progn (json-parse (lambda (x) (setq got x)) txt) got)"
+		if r.Bool() {
+			via, src = "json-parse", "(progn (json-parse (lambda (x) (setq got x)) txt) got)"
+		} else {
+			via, src = "json-parse nil", "(progn (json-parse (lambda (x) (setq got x)) txt nil) got)"
+		}
 	default:
 		via, src = "json-parse strict", "(progn (json-parse (lambda (x) (setq got x)) txt t) got)"
 	}
